@@ -9,6 +9,14 @@ functions of an arbitrary state type `S`.  Everything that decides *which* primi
 *when* — the execution-state fingerprint, skip decisions, early bails, the prepare/process/
 finalize loops, size constraints, group order, data-item order — is concrete.
 No Mathlib (the driver links this file).
+
+Not modelled: the pre-Aspen untyped data layout (two raw 32-byte roots); the mempool side effects of
+the loops (`remove_tx_invalid`, metrics) — the builder queue is an input of `PrepareProposal`;
+`ExtendVote` / `VerifyVoteExtension` (they only read the working state); the event bus; the write of
+the storage version in `prepare_commit` (part of the staged state); the unreachable
+`ExecutionState::Prepared(_) => bail!` arm of `process_proposal`. A failing call keeps the last
+successfully computed working state (the real delta may hold partial writes): nothing reads it
+before the next reset except `vote_extensions_enabled`, see `VeStable` in Theorems.lean.
 -/
 namespace Astria.Abci
 
